@@ -313,8 +313,8 @@ func init() {
 
 // FuzzC16SQL is the coverage-guided byte-level campaign (thorough tier): the
 // corpus is seeded with valid statements and hostile constants. Statements
-// with an odd number of back quotes or an empty back-quoted identifier are
-// skipped (listed finding sqlparser-unterminated-backtick: the parser never
+// with an odd number of back quotes, an empty back-quoted identifier, or back
+// quotes next to string literals / comments are skipped (listed finding sqlparser-unterminated-backtick: the parser never
 // returns for them).
 func FuzzC16SQL(f *testing.F) {
 	if err := c16Fixture(); err != nil {
@@ -328,6 +328,13 @@ func FuzzC16SQL(f *testing.F) {
 	}
 	f.Fuzz(func(t *testing.T, s string) {
 		if strings.Count(s, "`")%2 == 1 || strings.Contains(s, "``") || len(s) > 2000 {
+			t.Skip()
+		}
+		// a back quote inside a string literal or comment does not pair with one
+		// outside it (SELECT T(A,'`,1s'`,'')FROM t): whether the back quotes of such
+		// a statement are balanced for the tokenizer cannot be told without
+		// re-implementing its quoting rules, so these are skipped as well
+		if strings.Contains(s, "`") && strings.ContainsAny(s, "'\"\\#") || strings.Contains(s, "`") && (strings.Contains(s, "--") || strings.Contains(s, "/*")) {
 			t.Skip()
 		}
 		if err := planNoPanic(s); err != nil {
